@@ -2,8 +2,8 @@
 //
 //  --prim seq      exhaustive sequential scope: every sequence of exactly --len operations (lock through try_lock_wait2 /
 //                  try_lock_wait, unlock(handle), unlock(range), adjust_range) over the small word (offsets 0..S, lengths 0..S+1),
-//                  each on a fresh RangeLock, followed by an epilogue (release everything the harness still owns, then lock the
-//                  whole word).  One ndjson row per sequence; judged by spec/Trace_RangeLockSeq.tla.
+//                  each on a fresh RangeLock, followed (--epi 1) by an epilogue (release everything the harness still owns,
+//                  then lock the whole word).  One ndjson row per sequence; judged by spec/Trace_RangeLockSeq.tla.
 //  --prim seqrand  seeded random longer sequences (same row format).
 //  --prim conc     random concurrent programs on 1..V vCPUs (blocking lock, try-variants, adjust, unlock), Tier-A events
 //                  (Inv / Resp / Acquire / Claim / Release / Interrupt / Settle / Quiesce); judged by spec/Trace_RangeLockA.tla.
@@ -166,13 +166,13 @@ struct SeqRun {
     }
 };
 
-struct SeqCfg { int S = 3; bool top = true; int len = 3; bool l1 = true, ur = true, adj = true, uh = true; };
+struct SeqCfg { int S = 3; bool top = true; int len = 3; bool l1 = true, ur = true, adj = true, uh = true, epi = true; };
 static uint64_t g_rows = 0;
 
-static void run_seq(const Word& W, const std::vector<Op>& prefix) {
+static void run_seq(const Word& W, const std::vector<Op>& prefix, bool epi) {
     SeqRun run(W);
     for (auto& op : prefix) run.apply(op);
-    run.epilogue();
+    if (epi) run.epilogue();
     run.emit((int)prefix.size());
     g_rows++;
 }
@@ -193,7 +193,7 @@ static void candidates(const Word& W, const SeqCfg& c, const std::vector<Op>& pr
     }
 }
 static void dfs(const Word& W, const SeqCfg& c, std::vector<Op>& prefix) {
-    if ((int)prefix.size() == c.len) { run_seq(W, prefix); return; }
+    if ((int)prefix.size() == c.len) { run_seq(W, prefix, c.epi); return; }
     std::vector<Op> cand;
     candidates(W, c, prefix, cand);
     for (auto& op : cand) { prefix.push_back(op); dfs(W, c, prefix); prefix.pop_back(); }
@@ -508,7 +508,7 @@ static bool exec_dir(int ex, const Scenario& sc) {
         Client* C = st.cl.back().get(); DirWorker* D = dws->back().get();
         w->body = [C, D] {
             while (true) {
-                D->mail.wait(1);
+                if (D->mail.wait(1) != 0) continue;       // (an interrupt meant for an earlier call)
                 if (D->cmd.load() == 9) { C->release_all(); D->busy = false; return; }
                 Step s = D->st;
                 C->P->opno++;
@@ -601,6 +601,7 @@ int main(int argc, char** argv) {
             SeqCfg c;
             c.S = atoi(vt::arg(argc, argv, "--S", "3")); c.len = atoi(vt::arg(argc, argv, "--len", "3"));
             c.top = atoi(vt::arg(argc, argv, "--top", "1")) != 0;
+            c.epi = atoi(vt::arg(argc, argv, "--epi", "1")) != 0;
             std::string alpha = vt::arg(argc, argv, "--alpha", "all");
             if (alpha == "lock") c.l1 = c.ur = c.adj = c.uh = false;
             else if (alpha == "handle") c.l1 = c.ur = false;
